@@ -85,6 +85,9 @@ def universe(tier):
         ('DF{a:[1.,2.]}@A', pd.DataFrame({'a': [1., 2.]}, index=A)), ('DF{b:[1.,2.]}@A', pd.DataFrame({'b': [1., 2.]}, index=A)),
         ('DF{a:[1.,2.]}@B', pd.DataFrame({'a': [1., 2.]}, index=B)), ('DF{a:[1.,nan]}@A', pd.DataFrame({'a': [1., np.nan]}, index=A)),
         ('DF{a:[1,2],b:[3,4]}@A', pd.DataFrame({'a': [1., 2.], 'b': [3., 4.]}, index=A)), ('DF[]', pd.DataFrame(index=E0)),
+        # frames with a ZERO dimension but different labels on the other axis: same shape, no cells to compare, still unequal
+        ('DF0x{a,b}', pd.DataFrame({'a': [], 'b': []}, index=E0, dtype=float)), ('DF0x{a,c}', pd.DataFrame({'a': [], 'c': []}, index=E0, dtype=float)),
+        ('DF{}@A', pd.DataFrame(index=A)), ('DF{}@B', pd.DataFrame(index=B)),
     ]
     if tier == 'quick':
         return U
@@ -121,7 +124,7 @@ def universe(tier):
         ('S[1.]@A0', pd.Series([1.], _idx(0))), ('S[]i', pd.Series([], index=E0, dtype=int)),
         ('DF{b:[3,4],a:[1,2]}@A', pd.DataFrame({'b': [3., 4.], 'a': [1., 2.]}, index=A)), ('DF{a:[3,4],b:[1,2]}@A', pd.DataFrame({'a': [3., 4.], 'b': [1., 2.]}, index=A)),
         ('DF{a:[1,2],b:[3,nan]}@A', pd.DataFrame({'a': [1., 2.], 'b': [3., np.nan]}, index=A)), ('DF{a:[1,2],b:[3,4]}i@A', pd.DataFrame({'a': [1, 2], 'b': [3, 4]}, index=A)),
-        ('DF{a:[]}', pd.DataFrame({'a': []}, index=E0, dtype=float)), ('DF{}@A', pd.DataFrame(index=A)),
+        ('DF{a:[]}', pd.DataFrame({'a': []}, index=E0, dtype=float)), ('DF{}@A#2', pd.DataFrame(index=A)),
         ('DF{a:[1.,2.,3.]}', pd.DataFrame({'a': [1., 2., 3.]}, index=_idx(0, 1, 2))), ('DF{a:[1,2],b:[3,4]}@B', pd.DataFrame({'a': [1., 2.], 'b': [3., 4.]}, index=B)),
     ]
     return U
